@@ -100,6 +100,8 @@ var paramChoices = [][]string{
 	{`key65404="x=y"`},
 	{`key65405=""`},
 	{`key65406="ech"`}, // a value, not the key
+	// escaped backslashes (RFC 9460 appendix A): the closing quote after `\\` is NOT escaped
+	{`key65407="C:\\"`, `key65407="a\\\\b"`, `key65407=a\\b`, `key65407="\\\" x"`},
 }
 
 type valueClass struct {
